@@ -362,7 +362,7 @@ MVal *read_struct(const cJSON *n, size_t &budget, size_t depth, std::string &why
 // ---------------------------------------------------------------- generation
 double gen_number(Rng &r, bool allow_nonfinite, bool plain) {
     if (plain) {
-        if (r.chance(1, 8)) {  // tiny magnitudes: distinct values still differ by a factor, never by an epsilon
+        if (r.chance(1, 5)) {  // tiny magnitudes: distinct values still differ by a factor, never by an epsilon
             static const double scale[] = {1e-20, 1e-300, 1e-17, 5e-324, 1e-9};
             return (double)r.range(-4, 4) * scale[r.below(5)];
         }
